@@ -1,8 +1,12 @@
 pub mod common;
 pub mod c01;
 pub mod c02;
+pub mod c03;
+pub mod c05;
 pub mod c06;
 pub mod c07;
+pub mod c08;
+pub mod c09;
 pub mod c10;
 pub mod c11;
 pub mod c12;
@@ -10,6 +14,7 @@ pub mod c13;
 pub mod c16;
 pub mod c18;
 pub mod c19;
+pub mod rs;
 
 use crate::explore::Ctx;
 use serde_json::Value;
@@ -35,8 +40,12 @@ macro_rules! props {
 props! {
     "C01" => c01,
     "C02" => c02,
+    "C03" => c03,
+    "C05" => c05,
     "C06" => c06,
     "C07" => c07,
+    "C08" => c08,
+    "C09" => c09,
     "C10" => c10,
     "C11" => c11,
     "C12" => c12,
